@@ -555,6 +555,9 @@ def wl_croppers(ctx, idx, rng):
                                 chan_bw=(rate if rng.random() < 0.5 else rate * 4) if clsname not in gen.BASEBAND else None)
     # choose DM so that the band delay is a handful of samples
     bw = float(sig.bandwidth.to_value(u.Hz))
+    if fchz - bw / 2 <= 0:
+        ctx.count("skipped_band_not_above_zero")
+        return
     per_dm = 4149.377593360996e12 * abs((fchz - bw / 2) ** -2 - (fchz + bw / 2) ** -2) * srhz + 1e-300
     target = rng.uniform(0.2, n * 0.6) if rng.random() < 0.85 else rng.uniform(n * 0.6, n * 1.5)
     dmval = float(target / per_dm) * gen.pick(rng, [1, 1, -1])
